@@ -56,8 +56,7 @@ Qed.
 Section Main.
 Variable ds : list decl.
 Hypothesis Hvalid : valid ds = true.
-Hypothesis HkbA : kb_extern_init ds = false.
-Hypothesis HkbB : kb_inline_first ds = false.
+Hypothesis HkbS : kb_extern_init_static ds = false.
 Variable live : nat -> bool.
 Hypothesis Hlive : live_ok ds live.
 Variable o : opts.
@@ -114,14 +113,14 @@ Qed.
 
 (* the marked function object of a function name *)
 Lemma prog_fun_obj g d1 s' : funseq g ds = d1 :: s' ->
-  exists fo, filter (is_fun_named g) prog = [set_live (live g) fo] /\ flagsA g d1 (existsb has_body (d1 :: s')) (addr_taken_at_file_scope ds g) fo
+  exists fo, filter (is_fun_named g) prog = [set_live (live g) fo] /\ flagsA g (d1 :: s') (existsb has_body (d1 :: s')) (addr_taken_at_file_scope ds g) fo
              /\ urefs (ob_body fo) = ubody (kt ds) (body_of (d1 :: s')).
 Proof.
   intros E. destruct (fun_obj ds Hvalid g d1 s' E) as (fo & Ef & FA & _ & FB). exists fo. split; [|split; assumption].
   rewrite prog_fun, M_fun. fold Gs in Ef. rewrite Ef. cbn [map].
   assert (Hn : is_fun_named g fo = true).
   { assert (H : In fo (filter (is_fun_named g) Gs)) by (rewrite Ef; left; reflexivity). apply filter_In in H as [_ H]. exact H. }
-  rewrite (mark_one_fun Gs g fo Hn). unfold Gs. rewrite (model_live_eq ds Hvalid HkbB live g Hlive). reflexivity.
+  rewrite (mark_one_fun Gs g fo Hn). unfold Gs. rewrite (model_live_eq ds Hvalid live g Hlive). reflexivity.
 Qed.
 Lemma prog_no_fun g : funseq g ds = [] -> filter (is_fun_named g) prog = [].
 Proof. intros E. rewrite prog_fun, M_fun. unfold Gs. rewrite (no_fun_obj ds Hvalid g E). reflexivity. Qed.
@@ -174,7 +173,7 @@ Proof.
   - change (ubody (kt ds) (BString sz :: r)) with (ubody (kt ds) r). cbn [existsb refs_item orb]. exact IH.
 Qed.
 
-Definition rs (n : nat) : list bool := flat_map (data_refs (fcommon o) (User n)) prog ++ flat_map (text_refs (User n)) prog.
+Definition rs (n : nat) : list bool := flat_map (data_refs (fcommon o) prog (User n)) prog ++ flat_map (text_refs (User n)) prog.
 
 Lemma kt_obj_addr m od n : In (DObj m od) ds -> o_init od = IAddr n -> snd (kt ds n) = false.
 Proof.
@@ -186,7 +185,7 @@ Lemma refs_sound n t : In t (rs n) -> t = snd (kt ds n) /\ referenced live ds n 
 Proof.
   unfold rs. intros H. apply in_app_or in H as [H|H]; apply in_flat_map in H as (x & Hx & Ht).
   - (* data *)
-    unfold data_refs in Ht. destruct (emits_data x && negb (fcommon o && ob_tentative x && negb (ob_tls x)) && ob_init x); [|contradiction].
+    unfold data_refs in Ht. destruct (emits_data prog x && negb (fcommon o && ob_tentative x && negb (ob_tls x)) && ob_init x); [|contradiction].
     destruct (ob_rel x) as [t'|] eqn:Er; [|contradiction]. cbn [ident_eqb] in Ht. destruct (Nat.eqb_spec n t') as [<-|]; [|contradiction].
     destruct Ht as [<-|[]].
     destruct (M_classified x (prog_M x Hx)) as [(m & od & a & Hin & ->)|[Ha|(_ & _ & Hr & _)]].
@@ -222,8 +221,8 @@ Proof.
     { assert (H : In (obj_of_decl m od a) (filter (objP m) M)) by (rewrite M_obj; apply in_rev; rewrite rev_involutive; exact Ha).
       apply filter_In in H as [H _]. exact H. }
     split; [apply nt_in_prog; [exact HM|cbn; rewrite Ei; reflexivity]|].
-    unfold data_refs, emits_data. cbn [obj_of_decl ob_function ob_definition ob_tentative ob_tls ob_init ob_rel].
-    rewrite Ei. cbn [has_init negb andb]. rewrite (V_kbA ds HkbA m od Hd) by (rewrite Ei; reflexivity). cbn [negb andb].
+    unfold data_refs, emits_data, owner_live. cbn [obj_of_decl ob_function ob_definition ob_tentative ob_tls ob_init ob_rel ob_owner].
+    rewrite Ei. cbn [has_init negb andb]. rewrite orb_true_r. cbn [negb andb].
     rewrite andb_false_r. cbn [negb andb ident_eqb]. rewrite Nat.eqb_refl. left. reflexivity.
   - apply andb_true_iff in Hm as [Hl Hb]. destruct (decl_body g sc il fsz b Hd) as (Hs & Eb & Hhb).
     destruct (funseq g ds) as [|d1 s'] eqn:E; [contradiction|].
@@ -257,7 +256,7 @@ Proof.
 Qed.
 
 (* ---------- the table entry ---------- *)
-Definition Dc (n : nat) : list event := flat_map (fun x => if same_name (User n) x then data_core (fcommon o) x else []) prog.
+Definition Dc (n : nat) : list event := flat_map (fun x => if same_name (User n) x then data_core (fcommon o) prog x else []) prog.
 Definition Tc (n : nat) : list event := flat_map (fun x => if same_name (User n) x then text_core x else []) prog.
 
 Lemma lookup_form n : symtab_of (emit o prog) n = look (User n) (Dc n ++ Tc n) (rs n).
@@ -295,7 +294,7 @@ Proof.
   destruct (named_in_prog n x Hx Hn) as [[Hf _]|[_ Hs]]; [|contradiction]. unfold text_core, emits_text. rewrite Hf. reflexivity.
 Qed.
 Lemma Tc_fun n d1 s' : funseq n ds = d1 :: s' ->
-  exists fo, Tc n = text_core (set_live (live n) fo) /\ flagsA n d1 (existsb has_body (d1 :: s')) (addr_taken_at_file_scope ds n) fo.
+  exists fo, Tc n = text_core (set_live (live n) fo) /\ flagsA n (d1 :: s') (existsb has_body (d1 :: s')) (addr_taken_at_file_scope ds n) fo.
 Proof.
   intros E. destruct (prog_fun_obj n d1 s' E) as (fo & Efo & FA & _). exists fo. split; [|exact FA].
   unfold Tc. rewrite (flat_map_filter _ (is_fun_named n) prog).
@@ -314,8 +313,8 @@ Proof.
   assert (Hkt : snd (kt ds n) = false) by (unfold kt; rewrite Hfn; reflexivity).
   rewrite lookup_form, (Dc_fun n Eo). cbn [app]. destruct (Tc_fun n d1 s' E) as (fo & -> & FA).
   unfold spec_entry. rewrite E. cbn [fun_entry]. change (has_body d1 || existsb has_body s') with (existsb has_body (d1 :: s')).
-  pose proof (V_funseq ds Hvalid n) as V. rewrite E in V. pose proof (V_kbB ds HkbB n) as K. rewrite E in K.
-  pose proof (static_model d1 s' V K) as SM. pose proof V as V'. unfold valid_funseq in V'. apply andb_true_iff in V' as [V' _].
+  pose proof (V_funseq ds Hvalid n) as V. rewrite E in V.
+  pose proof (static_model d1 s' V) as SM. pose proof V as V'. unfold valid_funseq in V'. apply andb_true_iff in V' as [V' _].
   destruct (link_first _ d1 s' V') as [LF _]. cbn beta in LF. fold (fun_linkage (d1 :: s')) in LF.
   destruct FA as (A1 & A2 & A3 & A4 & A5 & _). unfold text_core, emits_text. cbn [set_live ob_function ob_definition ob_live ob_name ob_static].
   rewrite A1, A2, A3, A5. cbn [andb].
@@ -371,11 +370,16 @@ Proof.
   apply andb_true_iff in V as [V _]. apply andb_true_iff in V as [V _]. apply andb_true_iff in V as [V _]. apply andb_true_iff in V as [_ V].
   destruct (link_first _ od1 os' V) as [L1 L2]. cbn beta in L1, L2. split; [exact L1|exact L2].
 Qed.
-Lemma sc_static od : In od (od1 :: os') -> sc_eqb (o_sc od) SC_extern = false -> sc_eqb (o_sc od) SC_static = lk_eqb k L_internal.
+Lemma sc_static od : In od (od1 :: os') -> is_defining od = true -> sc_eqb (o_sc od) SC_static = lk_eqb k L_internal.
 Proof.
-  intros [<-|Hin] He.
-  - unfold k. destruct (o_sc od1); try discriminate; reflexivity.
-  - destruct obj_link as [_ L2]. specialize (L2 od Hin). destruct (o_sc od); try discriminate; cbn in L2; rewrite <- L2; reflexivity.
+  intros Hin Hd. destruct (sc_eqb (o_sc od) SC_extern) eqn:He.
+  - (* `extern` with an initializer: global; the linkage is not internal (kb_extern_init_static) *)
+    unfold is_defining in Hd. rewrite He in Hd. cbn in Hd.
+    pose proof (V_kbS ds HkbS n od) as K. rewrite Eo in K. specialize (K Hin He Hd). destruct obj_link as [L1 _]. rewrite L1 in K.
+    destruct (o_sc od); try discriminate. destruct k; [reflexivity|contradiction].
+  - destruct Hin as [<-|Hin].
+    + unfold k. destruct (o_sc od1); try discriminate; reflexivity.
+    + destruct obj_link as [_ L2]. specialize (L2 od Hin). destruct (o_sc od); try discriminate; cbn in L2; rewrite <- L2; reflexivity.
 Qed.
 
 Definition dc (hi : bool) : list event :=
@@ -384,13 +388,15 @@ Definition dc (hi : bool) : list event :=
   else [EType (User n) T_object; ESize (User n) (o_size od1);
         EDef (User n) (if hi then (if o_tls od1 then P_tdata else P_data) else (if o_tls od1 then P_tbss else P_bss)) (Some al)].
 
-Lemma data_core_decl od : In od (od1 :: os') -> sc_eqb (o_sc od) SC_extern = false ->
-  data_core (fcommon o) (obj_of_decl n od A) = dc (has_init (o_init od)).
+Lemma data_core_decl od : In od (od1 :: os') -> is_defining od = true ->
+  data_core (fcommon o) prog (obj_of_decl n od A) = dc (has_init (o_init od)).
 Proof.
-  intros Hin He. destruct (V_same_type ds Hvalid n od1 os' od Eo Hin) as (T1 & T2 & T3 & T4).
-  unfold data_core, emits_data, data_place, eff_align, dc, al, abi_align.
-  cbn [obj_of_decl ob_name ob_function ob_definition ob_static ob_tentative ob_tls ob_init ob_size ob_align ob_array].
-  rewrite He, (sc_static od Hin He), T1, T2, T4. cbn [negb andb]. rewrite andb_true_r. reflexivity.
+  intros Hin Hd. destruct (V_same_type ds Hvalid n od1 os' od Eo Hin) as (T1 & T2 & T3 & T4).
+  unfold data_core, emits_data, owner_live, data_place, eff_align, dc, al, abi_align.
+  cbn [obj_of_decl ob_name ob_function ob_definition ob_static ob_tentative ob_tls ob_init ob_size ob_align ob_array ob_owner].
+  unfold is_defining in Hd. rewrite Hd, (sc_static od Hin Hd), T1, T2, T4. cbn [negb andb].
+  destruct (has_init (o_init od)) eqn:Hi; cbn [negb andb]; [reflexivity|].
+  rewrite orb_false_r in Hd. apply negb_true_iff in Hd. rewrite Hd. reflexivity.
 Qed.
 
 Lemma decl_in od : In od (od1 :: os') -> In (DObj n od) ds.
@@ -406,7 +412,7 @@ Qed.
 (* an object of M that carries the name n: one of the declarations, with the alignment carried so far -
    the alignment of the object whenever the declaration is a definition *)
 Lemma named_obj_M x : In x M -> same_name (User n) x = true ->
-  exists od a, In od (od1 :: os') /\ x = obj_of_decl n od a /\ (sc_eqb (o_sc od) SC_extern = false -> a = A).
+  exists od a, In od (od1 :: os') /\ x = obj_of_decl n od a /\ (is_defining od = true -> a = A).
 Proof.
   intros Hx Hn. assert (Hnf : ob_function x = false).
   { destruct (ob_function x) eqn:Hf; [|reflexivity]. exfalso.
@@ -417,7 +423,7 @@ Proof.
   rewrite M_obj, Eo in H. apply in_rev in H. apply (acc_align_valid n od1 os' Vseq x H).
 Qed.
 Lemma named_obj x : In x prog -> same_name (User n) x = true ->
-  exists od a, In od (od1 :: os') /\ x = obj_of_decl n od a /\ (sc_eqb (o_sc od) SC_extern = false -> a = A).
+  exists od a, In od (od1 :: os') /\ x = obj_of_decl n od a /\ (is_defining od = true -> a = A).
 Proof. intros Hx. apply named_obj_M. apply prog_M. exact Hx. Qed.
 
 Lemma has_real_M : has_real M (User n) = hasreal.
@@ -425,12 +431,12 @@ Proof.
   unfold has_real, hasreal. destruct (existsb is_real_def (od1 :: os')) eqn:E.
   - apply existsb_exists in E as (od & Hin & Hr). destruct (obj_in_M od Hin) as (a & Ha). apply existsb_exists. exists (obj_of_decl n od a). split; [exact Ha|].
     unfold realP, same_name, is_real_def in *. cbn [obj_of_decl ob_definition ob_tentative ob_name ident_eqb].
-    rewrite Hr, (V_kbA ds HkbA n od (decl_in od Hin) Hr), Nat.eqb_refl. reflexivity.
+    rewrite Hr, Nat.eqb_refl, orb_true_r. reflexivity.
   - destruct (existsb (realP (User n)) M) eqn:E2; [|reflexivity]. apply existsb_exists in E2 as (x & Hx & Hr).
     unfold realP in Hr. apply andb_true_iff in Hr as [Hr Hn]. apply andb_true_iff in Hr as [Hd Ht].
     destruct (named_obj_M x Hx Hn) as (od & a & Hin & -> & _). cbn [obj_of_decl ob_definition ob_tentative] in Hd, Ht.
     assert (Hreal : is_real_def od = true).
-    { unfold is_real_def. destruct (has_init (o_init od)); [reflexivity|]. cbn in Ht. rewrite Hd in Ht. discriminate. }
+    { unfold is_real_def. destruct (has_init (o_init od)); [reflexivity|]. cbn in Ht, Hd. rewrite orb_false_r in Hd. rewrite Hd in Ht. discriminate. }
     assert (existsb is_real_def (od1 :: os') = true) by (apply existsb_exists; exists od; split; assumption). congruence.
 Qed.
 
@@ -448,7 +454,7 @@ Proof.
   rewrite prog_eq, tentative_merged, has_real_M, cnt_M. destruct hasreal; [reflexivity|]. rewrite length_filter_pos. fold hastent. destruct hastent; reflexivity.
 Qed.
 
-Definition Dn (x : obj) : bool := same_name (User n) x && emits_data x.
+Definition Dn (x : obj) : bool := same_name (User n) x && emits_data prog x.
 
 Lemma count_defs : length (filter Dn prog) = if hasreal then 1%nat else if hastent then 1%nat else 0%nat.
 Proof.
@@ -457,20 +463,17 @@ Proof.
   { change (fun x => Dn x && negb (ob_tentative x)) with (fun x => Dn x && nt x). rewrite filter_andb, prog_nt, <- filter_andb.
     rewrite (filter_filter_sub _ (objP n) M).
     - rewrite M_obj, Eo.
-      rewrite (acc_filter_len (fun x => Dn x && nt x) (fun od => negb (sc_eqb (o_sc od) SC_extern) && has_init (o_init od)) n).
-      + rewrite (filter_ext_in _ is_real_def).
-        * apply length_filter_le1. pose proof Vseq as V. unfold valid_objseq in V.
-          apply andb_true_iff in V as [V _]. apply andb_true_iff in V as [V _]. apply andb_true_iff in V as [_ V]. apply Nat.leb_le in V. exact V.
-        * intros od Hin. unfold is_real_def. destruct (has_init (o_init od)) eqn:Hi; [|apply andb_false_r].
-          rewrite (V_kbA ds HkbA n od (decl_in od Hin) Hi). reflexivity.
-      + intros od a. unfold Dn, nt, same_name, emits_data. cbn [obj_of_decl ob_name ob_function ob_definition ob_tentative ident_eqb].
+      rewrite (acc_filter_len (fun x => Dn x && nt x) is_real_def n).
+      + apply length_filter_le1. pose proof Vseq as V. unfold valid_objseq in V.
+        apply andb_true_iff in V as [V _]. apply andb_true_iff in V as [V _]. apply andb_true_iff in V as [_ V]. apply Nat.leb_le in V. exact V.
+      + intros od a. unfold Dn, nt, same_name, emits_data, owner_live, is_real_def. cbn [obj_of_decl ob_name ob_function ob_definition ob_tentative ob_owner ident_eqb].
         rewrite Nat.eqb_refl. cbn [negb andb]. destruct (has_init (o_init od)), (sc_eqb (o_sc od) SC_extern); reflexivity.
     - intros x _ H. apply andb_true_iff in H as [H _]. unfold Dn in H. apply andb_true_iff in H as [Hn He]. unfold objP. rewrite Hn.
-      unfold emits_data in He. apply andb_true_iff in He as [He _]. rewrite He. reflexivity. }
+      unfold emits_data in He. apply andb_true_iff in He as [He _]. apply andb_true_iff in He as [He _]. rewrite He. reflexivity. }
   assert (E2 : length (filter (fun x => Dn x && ob_tentative x) prog) = cnt (User n) prog).
   { unfold cnt. f_equal. apply filter_ext_in. intros x Hx. unfold Dn, tn. destruct (same_name (User n) x) eqn:Hn; [|rewrite andb_false_r; reflexivity].
     destruct (ob_tentative x) eqn:Ht; [|rewrite andb_false_r; reflexivity]. cbn [andb]. rewrite andb_true_r.
-    destruct (named_obj x Hx Hn) as (od & a & _ & -> & _). unfold emits_data. cbn [obj_of_decl ob_function ob_definition ob_tentative] in *.
+    destruct (named_obj x Hx Hn) as (od & a & _ & -> & _). unfold emits_data, owner_live. cbn [obj_of_decl ob_function ob_definition ob_tentative ob_owner] in *.
     apply andb_true_iff in Ht as [_ Ht]. rewrite Ht. reflexivity. }
   rewrite E1, E2, cnt_prog. destruct hasreal; [reflexivity|]. destruct hastent; reflexivity.
 Qed.
@@ -481,13 +484,13 @@ Proof.
   - rewrite count_defs. destruct hasreal; cbn [repeat concat]; [apply app_nil_r|]. destruct hastent; cbn [repeat concat]; [apply app_nil_r|reflexivity].
   - intros x Hx HD. unfold Dn in HD. apply andb_true_iff in HD as [Hn He]. rewrite Hn.
     destruct (named_obj x Hx Hn) as (od & a & Hin & -> & Ha).
-    assert (Hext : sc_eqb (o_sc od) SC_extern = false).
-    { unfold emits_data in He. cbn [obj_of_decl ob_function ob_definition] in He. cbn in He. apply negb_true_iff in He. exact He. }
+    assert (Hext : is_defining od = true).
+    { unfold emits_data, owner_live in He. cbn [obj_of_decl ob_function ob_definition ob_owner] in He. cbn [negb andb] in He. rewrite andb_true_r in He. exact He. }
     rewrite (Ha Hext), (data_core_decl od Hin Hext). f_equal. destruct (has_init (o_init od)) eqn:Hi.
     + symmetry. apply existsb_exists. exists od. split; [exact Hin|exact Hi].
     + (* a tentative object survived, so there is no real definition *)
       assert (Ht : tn (User n) (obj_of_decl n od A) = true).
-      { unfold tn, same_name. cbn [obj_of_decl ob_tentative ob_name ident_eqb]. rewrite Hi, Hext, Nat.eqb_refl. reflexivity. }
+      { unfold tn, same_name. cbn [obj_of_decl ob_tentative ob_name ident_eqb]. unfold is_defining in Hext. rewrite Hi, orb_false_r in Hext. apply negb_true_iff in Hext. rewrite Hi, Hext, Nat.eqb_refl. reflexivity. }
       rewrite (Ha Hext) in Hx. pose proof (In_filter_length _ _ _ Hx Ht) as Hpos. fold (cnt (User n) prog) in Hpos. rewrite cnt_prog in Hpos.
       destruct hasreal; [lia|reflexivity].
   - intros x _ HD. unfold Dn in HD. destruct (same_name (User n) x); [|reflexivity]. cbn [andb] in HD. unfold data_core. rewrite HD. reflexivity.
@@ -531,7 +534,7 @@ End Main.
 
 (* the headline statement, all hypotheses explicit *)
 Theorem emit_symtab_correct : forall ds o live,
-  valid ds = true -> kb_extern_init ds = false -> kb_inline_first ds = false ->
+  valid ds = true -> kb_extern_init_static ds = false ->
   live_ok ds live ->
   forall n, symtab_of (emit o (parse_flags ds)) n = to_result (spec_entry live ds o n).
-Proof. intros ds o live H1 H2 H3 H5 n. apply emit_symtab_correct_here; assumption. Qed.
+Proof. intros ds o live H1 H2 H5 n. apply emit_symtab_correct_here; assumption. Qed.
